@@ -441,6 +441,20 @@ func (db *DB) insertOrUpdate(s *Schema, o Object, commit bool) (err error) {
 		return
 	}
 
+	// constraints are checked before writing anything
+	if err = s.ObjectIndex.satisfyAll(o); err != nil {
+		return
+	}
+
+	// the object is written before being indexed and cached, so that a
+	// write failure leaves neither an index entry nor a cached value
+	// which do not match the file
+	if !s.asyncWritesEnabled() {
+		if err = db.writeObjectData(s, o, data); err != nil {
+			return
+		}
+	}
+
 	if err = s.index(o); err != nil {
 		return
 	}
@@ -454,16 +468,9 @@ func (db *DB) insertOrUpdate(s *Schema, o Object, commit bool) (err error) {
 		// we don't write object to disk but store
 		// it in a structure for later saving
 		db.asyncw.put(o)
-	} else {
-		// writing the object to disk
-		if err = db.writeObjectData(s, o, data); err != nil {
-			return
-		}
-
+	} else if commit {
 		// commiting schema and index to disk
-		if commit {
-			return db.commit(o)
-		}
+		return db.commit(o)
 	}
 
 	return
